@@ -7,6 +7,8 @@ use std::marker::PhantomData;
 use std::net::SocketAddr;
 use std::sync::atomic::Ordering;
 use std::sync::Arc;
+
+use parking_lot::Mutex;
 use std::time::Duration;
 
 use datacake_crdt::{HLCTimestamp, Key, OrSWotSet};
@@ -475,14 +477,15 @@ async fn c07_case(seed: u64, i: u64, sqlite_dir: Option<&std::path::Path>) -> Ca
     out
 }
 
-async fn c07_generic<I, F, Fut>(rng: &mut StdRng, i: u64, out: &mut CaseOut, open: F) -> Result<(), String>
-where
-    I: Backing,
-    F: Fn(Option<Arc<I>>) -> Fut,
-    Fut: std::future::Future<Output = Result<Arc<I>, String>>,
-{
-    let real_time = std::any::type_name::<I>().contains("Sqlite");
-    let inner = open(None).await?;
+pub struct C07State {
+    pub visible: Vec<(String, Key, HLCTimestamp, bool)>,
+    pub trace: Vec<Value>,
+    pub purged_possible: bool,
+    pub crash_inside: bool,
+}
+
+/// Phase 1: the request history up to the crash point, on a running node.
+async fn c07_phase1<I: Backing>(rng: &mut StdRng, i: u64, out: &mut CaseOut, inner: Arc<I>, real_time: bool) -> Result<C07State, String> {
     let ctl = Ctl::new(1);
     let addr = scen_addr(7, i);
     let mut node = ActorNode::start(inner.clone(), ctl.clone(), addr, true).await?;
@@ -539,21 +542,20 @@ where
             },
         }
     }
-    if std::env::var("MON_DEBUG").is_ok() {
-        for k in keyspaces {
-            eprintln!("before stop {k}: {:?} removes={}", store_listing(node.store.as_ref(), k).await, ctl.calls.load(Ordering::SeqCst));
-        }
-    }
-    // ---- stop: drop the group, its actors and the server
     // A purge may legitimately remove a visible tombstone. Under virtual time only
     // explicit purge requests can run (the group's own purge task ticks once before any
-    // keyspace exists and then hourly); on the real-time runtime used for SQLite that
+    // keyspace exists and then hourly); on the real-time runtimes used for SQLite / LMDB that
     // first tick can land a few milliseconds into the history.
     let purged_possible = real_time || trace.iter().any(|t| t["request"] == "purge");
+    // ---- stop: the group, its actors and the server are dropped (or the process exits)
     node.stop();
     ctl.park_after.store(-1, Ordering::SeqCst);
-    // ---- restart on the same storage
-    let inner2 = open(Some(inner)).await?;
+    Ok(C07State { visible, trace, purged_possible, crash_inside })
+}
+
+/// Phase 2: a fresh node on the same storage; oracle.
+async fn c07_phase2<I: Backing>(i: u64, out: &mut CaseOut, inner2: Arc<I>, st: &C07State) -> Result<(), String> {
+    let (visible, trace) = (&st.visible, &st.trace);
     let ctl2 = Ctl::new(1);
     let node2 = ActorNode::start(inner2.clone(), ctl2, scen_addr(8, i), true).await?;
     out.count("restarts", 1);
@@ -571,13 +573,13 @@ where
         }
     }
     // every mutation visible before the stop is still there or superseded by a newer stamp for that id
-    for (ksn, id, t, tomb) in &visible {
+    for (ksn, id, t, tomb) in visible {
         let (live, dead) = store_listing(node2.store.as_ref(), ksn).await?;
         let newer_or_same = live.iter().chain(dead.iter()).any(|e| e.0 == *id && e.1 >= *t);
         // a purge may legitimately remove a tombstone that was visible, including the
         // tombstone which superseded this mutation
         let superseded_by_visible_tombstone = visible.iter().any(|(k2, id2, t2, tomb2)| k2 == ksn && id2 == id && *tomb2 && t2 > t);
-        let purged_ok = purged_possible && (*tomb || superseded_by_visible_tombstone);
+        let purged_ok = st.purged_possible && (*tomb || superseded_by_visible_tombstone);
         if !newer_or_same && !purged_ok {
             out.violate("C07:acknowledged-visible-mutation-lost-by-restart", json!({"keyspace": ksn, "id": id, "stamp": ts_json(*t), "tombstone": tomb, "trace": trace}));
         }
@@ -585,21 +587,146 @@ where
             out.violate("C07:keyspace-with-visible-mutation-not-listed-after-restart", json!({"keyspace": ksn, "listed": listed}));
         }
     }
-    if crash_inside || visible.len() >= 2 {
+    if st.crash_inside || visible.len() >= 2 {
         out.nontrivial = Some(hash_of(&format!("{trace:?}")));
     }
-    if i == 5 {
+    if i == 5 || i == 4 {
         out.sample = Some(json!({"trace": trace, "visible_before_stop": visible.len(), "keyspaces_after_restart": listed}));
     }
     node2.stop();
     Ok(())
 }
 
+async fn c07_generic<I, F, Fut>(rng: &mut StdRng, i: u64, out: &mut CaseOut, open: F) -> Result<(), String>
+where
+    I: Backing,
+    F: Fn(Option<Arc<I>>) -> Fut,
+    Fut: std::future::Future<Output = Result<Arc<I>, String>>,
+{
+    let real_time = std::any::type_name::<I>().contains("Sqlite");
+    let inner = open(None).await?;
+    let st = c07_phase1(rng, i, out, inner.clone(), real_time).await?;
+    // ---- restart on the same storage
+    let inner2 = open(Some(inner)).await?;
+    c07_phase2(i, out, inner2, &st).await
+}
+
+/// LMDB: the two phases run in two different processes (an LMDB environment cannot be
+/// opened twice in one process and the stopped incarnation's tasks keep it alive): the first
+/// process exits abruptly after the crash point, the second one opens the same directory.
+/// `mon C07-lmdb --phase 1|2 --index I --dir D --state S.json --out O.json`
+pub fn c07_lmdb_child(args: &Args) {
+    let phase = args.opt_u64("phase", 1);
+    let i = args.opt_u64("index", 0);
+    let dir = std::path::PathBuf::from(args.opt_str("dir").expect("--dir"));
+    let state_path = std::path::PathBuf::from(args.opt_str("state").expect("--state"));
+    let seed = args.seed;
+    let rt = tokio::runtime::Builder::new_current_thread().enable_all().thread_keep_alive(Duration::from_secs(1_000_000)).build().unwrap();
+    let mut report = Report::new(args, "E1-actor-c07-lmdb-child", "child");
+    let mut out = CaseOut::default();
+    if phase == 1 {
+        let mut rng = rng_for(seed, 0xC07, i);
+        let res: Result<C07State, String> = rt.block_on(async {
+            let inner = datacake_lmdb::LmdbStorage::open(&dir).await.map(Arc::new).map_err(|e| e.to_string())?;
+            c07_phase1(&mut rng, i, &mut out, inner, true).await
+        });
+        match res {
+            Ok(st) => {
+                let v = json!({
+                    "visible": st.visible.iter().map(|(k, id, t, tomb)| json!([k, id, t.as_u64(), tomb])).collect::<Vec<_>>(),
+                    "trace": st.trace, "purged_possible": st.purged_possible, "crash_inside": st.crash_inside,
+                    "counts": out.counts.iter().map(|(k, n)| json!([k, n])).collect::<Vec<_>>(),
+                });
+                std::fs::write(&state_path, serde_json::to_vec(&v).unwrap()).unwrap();
+            },
+            Err(e) => {
+                std::fs::write(&state_path, serde_json::to_vec(&json!({"error": e})).unwrap()).unwrap();
+            },
+        }
+        // the crash: no destructors, no clean shutdown of the environment
+        std::mem::forget(rt);
+        std::process::exit(0);
+    }
+    let v: Value = serde_json::from_slice(&std::fs::read(&state_path).unwrap_or_default()).unwrap_or(Value::Null);
+    if let Some(e) = v.get("error") {
+        out.inconclusive = Some(format!("phase 1 failed: {e}"));
+    } else if v.is_null() {
+        out.inconclusive = Some("phase 1 left no state file".into());
+    } else {
+        let st = C07State {
+            visible: v["visible"].as_array().unwrap().iter().map(|e| (e[0].as_str().unwrap().to_string(), e[1].as_u64().unwrap(), HLCTimestamp::from_u64(e[2].as_u64().unwrap()), e[3].as_bool().unwrap())).collect(),
+            trace: v["trace"].as_array().cloned().unwrap_or_default(),
+            purged_possible: v["purged_possible"].as_bool().unwrap_or(true),
+            crash_inside: v["crash_inside"].as_bool().unwrap_or(false),
+        };
+        for c in v["counts"].as_array().cloned().unwrap_or_default() {
+            let name: &'static str = match c[0].as_str().unwrap_or("") {
+                "requests_acknowledged" => "requests_acknowledged",
+                "requests_failed" => "requests_failed",
+                "crashed_inside_a_request" => "crashed_inside_a_request",
+                _ => "other",
+            };
+            out.count(name, c[1].as_u64().unwrap_or(0));
+        }
+        let res: Result<(), String> = rt.block_on(async {
+            let inner2 = datacake_lmdb::LmdbStorage::open(&dir).await.map(Arc::new).map_err(|e| e.to_string())?;
+            c07_phase2(i, &mut out, inner2, &st).await
+        });
+        if let Err(e) = res {
+            out.inconclusive = Some(e);
+        }
+        out.count("restarts_on_lmdb", 1);
+        if !out.violations.is_empty() {
+            out.replay = Some(json!({"seed": seed, "index": i, "backend": "lmdb"}));
+        }
+    }
+    report.absorb(out);
+    report.finish(args);
+    std::mem::forget(rt);
+    std::process::exit(0);
+}
+
+/// Runs one LMDB restart case through the two child processes and returns the second one's report.
+fn c07_lmdb_case(seed: u64, i: u64, root: &std::path::Path) -> Result<Value, String> {
+    let exe = std::env::current_exe().map_err(|e| e.to_string())?;
+    let dir = root.join(format!("lmdb-{i}"));
+    let _ = std::fs::create_dir_all(&dir);
+    let state = root.join(format!("lmdb-{i}.state.json"));
+    let outp = root.join(format!("lmdb-{i}.out.json"));
+    let mut result = Err("phase 2 produced no report".to_string());
+    for phase in ["1", "2"] {
+        let st = std::process::Command::new(&exe)
+            .arg("C07-lmdb")
+            .args(["--seed", &seed.to_string(), "--index", &i.to_string(), "--phase", phase])
+            .arg("--dir")
+            .arg(&dir)
+            .arg("--state")
+            .arg(&state)
+            .arg("--out")
+            .arg(&outp)
+            .stderr(std::process::Stdio::null())
+            .status();
+        if !matches!(&st, Ok(s) if s.success()) {
+            result = Err(format!("LMDB restart case {i}: phase {phase} child failed: {st:?}"));
+            break;
+        }
+    }
+    if let Ok(bytes) = std::fs::read(&outp) {
+        if let Ok(v) = serde_json::from_slice::<Value>(&bytes) {
+            result = Ok(v);
+        }
+    }
+    let _ = std::fs::remove_dir_all(&dir);
+    let _ = std::fs::remove_file(&state);
+    let _ = std::fs::remove_file(&outp);
+    result
+}
+
 pub fn c07(args: &Args) {
     let mut report = Report::new(
         args,
         "E1-actor",
-        "request histories of 1..9 requests over 3 ids (one in four: 10..39 requests over 16 ids) (same alphabet as C02 incl. service payloads, 2 keyspaces, hour-scale stamps in half) against a real KeyspaceGroup; crash point = after any request, or INSIDE the last one (the wrapper performs the inner write - for bulk calls of the first j documents - and never returns; group, actors and server are dropped). Restart = fresh KeyspaceGroup + load_states_from_storage on the same storage (MemStore shared Arc; SQLite file closed and reopened, 1 in 8). Oracle: for every keyspace storage lists, the rebuilt set's listing == iter_metadata (ids, stamps, live/tombstone); every mutation that was visible in storage right after its acknowledgement is present after the restart or superseded by a newer stamp for that id. Non-trivial = crashed inside a request or >= 2 visible mutations; distinct = distinct histories.",
+        "request histories of 1..9 requests over 3 ids (one in four: 10..39 requests over 16 ids) (same alphabet as C02 incl. service payloads, 2 keyspaces, hour-scale stamps in half) against a real KeyspaceGroup; crash point = after any request, or INSIDE the last one (the wrapper performs the inner write - for bulk calls of the first j documents - and never returns; group, actors and server are dropped). Restart = fresh KeyspaceGroup + load_states_from_storage on the same storage (MemStore shared Arc; SQLite file closed and reopened, 1 in 8; LMDB: 400 further histories where the first process exits abruptly at the crash point and a second process opens the same directory). Oracle: for every keyspace storage lists, the rebuilt set's listing == iter_metadata (ids, stamps, live/tombstone); every mutation that was visible in storage right after its acknowledgement is present after the restart or superseded by a newer stamp for that id. Non-trivial = crashed inside a request or >= 2 visible mutations; distinct = distinct histories.",
     );
     let dir = scratch_dir("c07");
     if let Some(path) = &args.replay {
@@ -622,7 +749,31 @@ pub fn c07(args: &Args) {
             block_on_paused(c07_case(seed, i, None))
         }
     });
+    // LMDB: every restart is a real process exit followed by a new process on the same directory
+    let n_lmdb = args.pick(400, 20_000);
+    let d3 = dir.clone();
+    let lmdb_reports: Mutex<Vec<Result<Value, String>>> = Mutex::new(Vec::new());
+    {
+        let mut dummy = Report::new(args, "lmdb-driver", "");
+        run_cases(&mut dummy, n_lmdb, args.threads, Duration::from_secs(args.pick(120, 1800)), |k| {
+            let r = c07_lmdb_case(seed, 10_000_000 + k, &d3);
+            lmdb_reports.lock().push(r);
+            CaseOut::default()
+        });
+    }
+    for r in lmdb_reports.into_inner() {
+        match r {
+            Ok(v) => report.merge_child(&v),
+            Err(e) => {
+                report.inconclusive_count += 1;
+                if report.inconclusive.len() < 5 {
+                    report.inconclusive.push(e);
+                }
+            },
+        }
+    }
     let _ = std::fs::remove_dir_all(&dir);
+    report.floor("restarts_on_lmdb", 100);
     report.floor("restarts", 10_000);
     report.floor("crashed_inside_a_request", 1_000);
     report.floor("restarts_on_sqlite_file", 500);
